@@ -184,6 +184,10 @@ ADDENDA = {
            "or_and_prec, not_eq_prec, neg_mul_prec, cmp_chain, or_flat. The operator tables and the call shape of the expression tower are REGENERATED "
            "from parser.py on every run and proved equal to the model's (C02GenSyntax: add_mul_tables_agree, relops_agree, tower_agree, ...).",
     "C03": " The parameter names of the modelled built-ins are proved equal to the getArgNames table REGENERATED from functions.py on every run (C03Gen).",
+    "C08": " Full round trip (C08Full): for NULL, booleans, ints, strings and lists, sets and maps of them nested to any depth (canonical form), the "
+           "scanner on the rendered text yields the expected tokens (data_tokens'), parseScript yields the literal AST (roundtrip_parse), evaluating it "
+           "yields a value that reifies to the original (roundtrip_eval), and the composition renders the same text again (roundtrip_text); mkSet / mkMap "
+           "produce canonical form from any order (mkSet_isData', mkMap_isData').",
     "C09": " At the level of the evaluator model (C09Eval): NoEff (flag set, no effectful built-in value anywhere in frames or heap) is preserved by every "
            "evaluator function and by whole sessions (eval_preserves_noEff), no evaluator step writes the flag (secure_flag_constant), and secure-mode "
            "evaluation is independent of what the effectful built-ins would do (eval_indep_effectful: non-interference form of unreachability).",
@@ -202,7 +206,9 @@ ADDENDA = {
            "expression statements. The parser uses positions only by copying them (C14Parse: production_equivariant for all 49 productions, "
            "parse_pos_irrelevant, parse_layout_irrelevant from source text). Scanner tables REGENERATED from lexer.py on every run are proved equal to the "
            "model's (C14Gen: number_classes_agree, transitions_agree, string_twins_agree, ...). Evaluation does not depend on source positions "
-           "(C14Eval: eval_pos_irrelevant through all 30 evaluator functions, session_pos_irrelevant, output_pos_irrelevant, erase_eval).",
+           "(C14Eval: eval_pos_irrelevant through all 30 evaluator functions, session_pos_irrelevant, output_pos_irrelevant, erase_eval). End to end "
+           "(C14EndToEnd): interpret_layout_irrelevant - white space, LF/CRLF or a comment inserted at a token boundary of the source text gives the "
+           "same value, output, error value and message, or a syntax error with the same message.",
     "C17": " date - date on exact millisecond stamps: (d + k) - d = k for dates with a time of day (diffDays_addDays), antisymmetry, truncation spec.",
     "C20": " Evaluator level (C20Eval): per construct the error carries the failing node's own position, errors propagate unchanged, a failing call adds "
            "exactly one trace entry with the call node's position, and every position in an outcome comes from an AST (error_pos_from_ast, "
